@@ -418,6 +418,12 @@ func (svr *Server) Serve() error {
 				break
 			}
 		}
+		if err != nil && !errors.Is(err, errUnknownExtendedPacket) {
+			// A packet that failed to decode (pkt is nil for an unknown type, half
+			// filled for a short one) is never dispatched; RequestServer.serveLoop
+			// stops here as well.
+			break
+		}
 
 		pktChan <- svr.pktMgr.newOrderedRequest(pkt)
 	}
